@@ -177,3 +177,42 @@ Example C13_few_gen_facts :
    legal_count (root_of fen218a) = Some 218%nat /\ few_gen (root_of fen218a)).
 Proof. exact (conj inv_alone_not_few max218_a). Qed.
 Print Assumptions C13_few_gen_facts.
+
+(* ======================= END TO END (GameThm/GameMate.v, over the whole-engine model Uci/Engine.v) =======================
+   If the FIDE position reached by the game of a `position startpos moves ...` command has a FIDE mate in one - a legal move after
+   which the opponent is in check and has no legal move, judged by the independent specification Rules/Fide.v - then the bestmove the
+   engine prints for the following go line (standard parameters, depth not 255, any oracle) is a FIDE mating move; from ANY engine
+   state reached from process start by in-domain lines ([reached roots e], roots = the positions searched so far: "whatever earlier
+   searches left in the shared tables").  Hypotheses that remain are those of C13_mate_in_one_session, stated on the root the command
+   denotes: no 64-bit hash collision on the visited sets, fewer than 256 generated moves at the root and its successors; plus the
+   bounded-recursion run hypothesis of the end-to-end theorems. *)
+From Clemens Require Uci.Engine Uci.EngineInst Uci.Input Uci.GoLineSpec Uci.ParseGo Rules.Fide Rules.Abs.
+From Clemens.C03Recon Require Recon.
+From Clemens.EngineE2E Require EngState EngE2E.
+From Clemens.GameThm Require GameInv GameAfter GameMate GameMateExamples.
+Import Clemens.Uci.Engine Clemens.Uci.EngineInst.
+
+Theorem C13_engine_plays_mate :
+  forall roots e iters fuel it0 f0 c0 c fms s garbage ps,
+  GameInv.reached roots e ->
+  (510 <= iters)%nat -> (f0 <= fuel)%nat -> (f0 <= 255)%nat -> (it0 <= 510)%nat ->
+  Recon.fide_game Fide.initial fms s -> (List.length fms + f0 <= 1024)%nat ->
+  Forall GoLineSpec.plain_token garbage -> GoLineSpec.all_unknown GoConsts.validFirstInputToken garbage ->
+  NoDup (map GoLineSpec.kind ps) -> Forall GoLineSpec.param_ok ps -> GoLineSpec.value_of ParseGo.KDepth ps <> 255%Z ->
+  GameMate.fide_mate_in_one s -> GameMate.c13_root_hyps roots (GameAfter.game_root fms) ->
+  let pos_line := GoLineSpec.join (Input.w_position :: EngE2E.startpos_tokens fms) in
+  let go_line := GoLineSpec.join (garbage ++ Input.w_go :: GoLineSpec.render ps) in
+  fst (go_run it0 f0 e [(pos_line, c0); (go_line, c)]) <> SStuck ->
+  exists e' out m,
+    go_run iters fuel e [(pos_line, c0); (go_line, c)] = (SEof e', out) /\
+    EngState.count_best out = 1%nat /\ last out OReadyOk = OBestMove m /\
+    en_state e' = ST_IDLE /\ GameMate.fide_mating s (Abs.decode m) /\ GameInv.reached (GameAfter.game_root fms :: roots) e'.
+Proof. exact GameMate.mate_in_one_after_any_session_startpos. Qed.
+Print Assumptions C13_engine_plays_mate.
+
+Theorem C13_fide_mating_defs : forall s fm,
+  (GameMate.fide_mating s fm <-> In fm (Fide.legal_moves s) /\ GameMate.fide_mated (Fide.apply s fm)) /\
+  (GameMate.fide_mate_in_one s <-> exists fm, GameMate.fide_mating s fm) /\
+  (GameMate.fide_mated s <-> Fide.checkmate s = true).
+Proof. intros. split; [apply iff_refl|]. split; [apply iff_refl|]. apply GameMate.fide_mated_checkmate. Qed.
+Print Assumptions C13_fide_mating_defs.
